@@ -61,6 +61,17 @@ type world struct {
 	mutLog  []mutRec     // which host every notifier call was about (by epoch)
 	// a call of a burst panicked or never returned (it may hold the policy's locks): the policy is not used any more
 	poisoned bool
+	// (seventh round) HOST IDENTITY: the history per LIST KEY. The lists of the policies identify a host by its connect
+	// address (cowHostList.add: HostInfo.Equal = same object or same address; cowHostList.remove: the address), the
+	// round-robin based policies keep one list per tier: the key of a host object is (tier, address) there and the
+	// address in the token-aware policy's own list. From the op lines alone: kst = known / last call per key (calls
+	// about ANY object with that key), kown = the object that stands for the key (the first one AddHost / HostUp put
+	// there since the key was last freed by RemoveHost / HostDown), town = the token-aware policy's own list
+	// (AddHost of an object whose address no listed object has appends, RemoveHost frees the address). Lean:
+	// Policies.keyStatus / ownerOf (C11_identity_history_exact_partial).
+	kst  map[string]*hstat
+	kown map[string]int
+	town []int
 }
 
 type mutRec struct{ epoch, id int }
@@ -118,6 +129,73 @@ func (w *world) record(ev string, id int) {
 		st.known = false
 	}
 	st.last = ev
+	h, ok := w.hosts[id]
+	if !ok {
+		return
+	}
+	// the same per list key
+	k := w.key(h)
+	ks, ok := w.kst[k]
+	if !ok {
+		ks = &hstat{}
+		w.kst[k] = ks
+	}
+	switch ev {
+	case "add":
+		ks.known = true
+	case "remove":
+		ks.known = false
+	}
+	ks.last = ev
+	switch ev {
+	case "add", "hup":
+		if _, taken := w.kown[k]; !taken {
+			w.kown[k] = id
+		}
+	default:
+		delete(w.kown, k)
+	}
+	// the token-aware policy's own list: keyed by address alone, changed by AddHost / RemoveHost only
+	a := h.ConnectAddress().String()
+	switch ev {
+	case "add":
+		taken := false
+		for _, x := range w.town {
+			if w.hosts[x].ConnectAddress().String() == a {
+				taken = true
+			}
+		}
+		if !taken {
+			w.town = append(w.town, id)
+		}
+	case "remove":
+		var keep []int
+		for _, x := range w.town {
+			if w.hosts[x].ConnectAddress().String() != a {
+				keep = append(keep, x)
+			}
+		}
+		w.town = keep
+	}
+}
+
+// key: the identity the lists of the round-robin based policies give a host object: its tier (one list per tier)
+// and its connect address
+func (w *world) key(h *gocql.HostInfo) string {
+	return strconv.Itoa(w.tier(h)) + "/" + h.ConnectAddress().String()
+}
+
+// owner: the host object is the one that stands for its key in the policy's lists, by the history
+func (w *world) owner(h *gocql.HostInfo) bool {
+	id, ok := w.kown[w.key(h)]
+	return ok && w.hosts[id] == h
+}
+
+func (w *world) kstat(h *gocql.HostInfo) hstat {
+	if st, ok := w.kst[w.key(h)]; ok {
+		return *st
+	}
+	return hstat{}
 }
 
 // alias: two defined host objects share a connect address (the lists identify hosts by address; the
@@ -248,11 +326,15 @@ func (w *world) specReplicas(ks string, tokS string, perms string) (reps []*gocq
 }
 
 // taHostsSpec: the token-aware policy's own list = the hosts added and not removed since (history); with two
-// host objects on one address the history definition is not applicable and the policy's list is used
+// host objects on one address: the history per ADDRESS (w.town: the first object added on an address since the
+// address was last removed)
 func (w *world) taHostsSpec() []*gocql.HostInfo {
 	var taHosts []*gocql.HostInfo
 	if w.alias() {
-		_, taHosts, _ = gocql.VerifPolicyLists(w.pol)
+		// (seventh round) by the history per address, not read back from the policy
+		for _, id := range w.town {
+			taHosts = append(taHosts, w.hosts[id])
+		}
 		return taHosts
 	}
 	for _, id := range w.sortedIDs() {
@@ -490,13 +572,18 @@ func (w *world) exec(op string) (res string) {
 			if os.Getenv("VERIF_DEBUG") != "" {
 				fmt.Fprintf(os.Stderr, "crash on %q: %v\n", op, r)
 			}
+			// a notifier call that panicked may have left the list's mutex locked (cowHostList.add / remove unlock
+			// without defer): the policy is not used any more (every later op of the scenario answers `poisoned`)
+			if f := strings.Fields(op); len(f) > 0 && (f[0] == "add" || f[0] == "remove" || f[0] == "hup" || f[0] == "hdown") {
+				w.poisoned = true
+			}
 		}
 	}()
 	f := strings.Fields(op)
 	if len(f) == 0 {
 		return "bad-op"
 	}
-	if w.poisoned && f[0] != "reset" && f[0] != "host" {
+	if w.poisoned && f[0] != "reset" && f[0] != "host" && f[0] != "hostp" {
 		return "poisoned"
 	}
 	switch f[0] {
@@ -527,6 +614,7 @@ func (w *world) exec(op string) (res string) {
 		w.attrs = map[*gocql.HostInfo]hostAttr{}
 		w.tables = map[string][]tabEntry{}
 		w.hist = map[int]*hstat{}
+		w.kst, w.kown, w.town = map[string]*hstat{}, map[string]int{}, nil
 		w.tableDup = map[string]bool{}
 		w.hot = false
 		w.lastPlain = nil
@@ -560,6 +648,25 @@ func (w *world) exec(op string) (res string) {
 		w.hosts[id] = h
 		w.ids[h] = id
 		w.attrs[h] = hostAttr{dc: "dc" + f[3], rack: "r" + f[4], toks: intList(f[5])}
+		return "ok"
+	case "hostp":
+		// hostp <id> <hostid> <addr> <port> <dc> <rack> <tokens|->: a HostInfo object with an explicit host id and native port
+		// (several nodes behind one connect address on different ports; a node that changes its address keeps its host id)
+		if len(f) != 8 {
+			return "bad-op"
+		}
+		id, a := atoi(f[1]), atoi(f[3])
+		var toks []string
+		for _, t := range intList(f[7]) {
+			toks = append(toks, tok(t))
+		}
+		h := gocql.VerifNewHostPort(fmt.Sprintf("id-%d", atoi(f[2])), net.IPv4(10, 0, byte(a>>8), byte(a)), atoi(f[4]), "dc"+f[5], "r"+f[6], toks)
+		if old, ok := w.hosts[id]; ok {
+			delete(w.ids, old)
+		}
+		w.hosts[id] = h
+		w.ids[h] = id
+		w.attrs[h] = hostAttr{dc: "dc" + f[5], rack: "r" + f[6], toks: intList(f[7])}
 		return "ok"
 	case "add", "remove", "hup", "hdown":
 		if len(f) != 2 {
@@ -1210,11 +1317,8 @@ func (w *world) lookupKs(ks string) (string, interface{}, bool) {
 // session keyspace's and every other held keyspace's: updateAllReplicas, repair of KF-C10-4) is recomputed when
 // the call changes the set of hosts the policy knows
 func (w *world) call(ev string, id int, h *gocql.HostInfo) {
-	var tBefore []*gocql.HostInfo
 	al := w.isTA && w.alias()
-	if al {
-		_, tBefore, _ = gocql.VerifPolicyLists(w.pol)
-	}
+	tBefore := append([]int(nil), w.town...)
 	before := w.stat(id).known
 	w.record(ev, id)
 	switch ev {
@@ -1232,10 +1336,10 @@ func (w *world) call(ev string, id int, h *gocql.HostInfo) {
 	}
 	changed := w.stat(id).known != before
 	if al {
-		_, tAfter, _ := gocql.VerifPolicyLists(w.pol)
-		changed = len(tAfter) != len(tBefore)
-		for i := range tAfter {
-			if i < len(tBefore) && tAfter[i] != tBefore[i] {
+		// by the history per address (w.town), not read back from the policy
+		changed = len(w.town) != len(tBefore)
+		for i := range w.town {
+			if i < len(tBefore) && w.town[i] != tBefore[i] {
 				changed = true
 			}
 		}
@@ -1287,7 +1391,39 @@ func (w *world) slotExcluded(sl *slot) string {
 // lines alone: "" = none (the op `offer` is spec-backed there), otherwise the class of the exclusion.
 func (w *world) offerExcluded(ks, tokS, perms string) string {
 	reps, known, _ := w.specReplicas(ks, tokS, perms)
+	if w.alias() {
+		return w.aliasExclusion(reps, known)
+	}
 	return w.exclusion(reps, known, w.specFresh(ks))
+}
+
+// aliasExclusion: (seventh round) the excluded conditions of C11_identity_history_exact_partial - `offer` with two
+// host objects on one connect address: counter region of KF-C11-3, a ghost KEY (HostUp of an object whose key is
+// not known: KF-C11-4), a replica table with a duplicate, a host of the specified replica head that is not the
+// listed object of its key (then the sequence is left to the model-vs-code comparison of `pick`)
+func (w *world) aliasExclusion(reps []*gocql.HostInfo, known bool) string {
+	if w.hot {
+		return "ctr63"
+	}
+	for _, id := range w.sortedIDs() {
+		if w.kstat(w.hosts[id]).ghost() {
+			return "ghost"
+		}
+	}
+	if len(w.taint) > 0 {
+		return "conflict"
+	}
+	if w.tablesHaveDup() {
+		return "duptable"
+	}
+	if known {
+		for _, h := range w.specHead(reps) {
+			if !w.owner(h) {
+				return "alias-head"
+			}
+		}
+	}
+	return ""
 }
 
 func (w *world) exclusion(reps []*gocql.HostInfo, known, fresh bool) string {
@@ -1341,12 +1477,22 @@ func (w *world) oracle(got []*gocql.HostInfo, nHead int, dupReps bool, headAny [
 		seen[h]++
 	}
 	if w.alias() {
-		layers, _, _ := gocql.VerifPolicyLists(w.pol)
-		for _, l := range layers {
-			for _, h := range l {
-				if h != nil && h.IsUp() && seen[h] == 0 {
-					return "up host not offered"
+		// (seventh round) the history per list key: the object that stands for a key (tier, address) that is known, not
+		// reported down and whose state is up must be offered; no other object may be - except a replica of the
+		// specified head (left to the model-vs-code comparison in alias states) and the object of a ghost key (KF-C11-4)
+		inHead := map[*gocql.HostInfo]bool{}
+		for _, h := range headAny {
+			inHead[h] = true
+		}
+		for _, id := range w.sortedIDs() {
+			h := w.hosts[id]
+			ks := w.kstat(h)
+			if w.owner(h) && ks.expected(h.IsUp()) {
+				if seen[h] == 0 {
+					return fmt.Sprintf("host %d is the listed object of its address in its tier, known and up by the history (last call %s, state up) but is not offered", id, ks.last)
 				}
+			} else if seen[h] > 0 && !inHead[h] && !(w.owner(h) && ks.ghost()) {
+				return fmt.Sprintf("host %d is offered but the history does not expect it (listed object of its key=%v known=%v last call=%q)", id, w.owner(h), ks.known, ks.last)
 			}
 		}
 	} else {
@@ -2569,6 +2715,153 @@ func (g *gen) historyScenario(kind string, ta bool, seq []int) {
 	observe()
 }
 
+// identityScenario (seventh round, family HOST IDENTITY in the policy host lists): a cluster in which host objects
+// share what the lists compare. Groups of 2..3 objects on ONE connect address - on different native ports (nodes
+// behind a port-mapping address), on the same port (distinct HostInfo objects that are Equal), with the same or
+// with different host ids, in the same tier or in different tiers - next to ordinary hosts, one of which shares its
+// HOST ID with another object on a different address (a node that changed its address); every policy kind, bare
+// and token-aware (session keyspace with SimpleStrategy every other time, so that AddHost / RemoveHost rebuild the
+// token ring and the replica tables over such a host list). Calls: AddHost / RemoveHost / HostUp / HostDown of the
+// members of a group in every order (the same object twice, an object and its sibling alternately), states
+// following the session's habit most of the time; after EVERY call a full drain without routing key - `offer`,
+// spec-backed also here: exactly the listed object of every key (tier, address) the history knows and that is up,
+// each once - and, token-aware, a routed drain. Every answer of a notifier call is the snapshot of the lists (a nil
+// entry shows as `nil`).
+func (g *gen) identityScenario(idx int) {
+	r := g.r
+	g.kind = []string{"rr", "dc", "rack"}[idx%3]
+	g.ta = (idx/3)%2 == 1
+	shuffle := g.ta && r.Intn(4) == 0
+	g.nonlocal = g.ta && r.Bool()
+	g.ldc, g.lrack = 0, 0
+	g.emit(fmt.Sprintf("reset %s %s 0 0 %s %s 1", g.kind, b01(g.ta), b01(shuffle), b01(g.nonlocal)), "ident/reset/"+g.kind+"/ta"+b01(g.ta), false)
+	places := [][2]int{{0, 0}, {0, 1}, {1, 0}}
+	id := 0
+	var groups [][]int
+	var all []int
+	ngroups := 1 + r.Intn(2)
+	for gi := 0; gi < ngroups; gi++ {
+		addr := 10 + gi
+		pl := places[r.Intn(3)]
+		var grp []int
+		members := 2 + r.Intn(2)
+		samePort := r.Intn(4) == 0
+		for m := 0; m < members; m++ {
+			id++
+			port := 9042 + m
+			if samePort {
+				port = 9042
+			}
+			mp := pl
+			if r.Intn(5) == 0 {
+				mp = places[r.Intn(3)] // a sibling in another tier
+			}
+			hid := id
+			if m > 0 && r.Intn(4) == 0 {
+				hid = grp[0] // the same host id as well
+			}
+			g.emit(fmt.Sprintf("hostp %d %d %d %d %d %d %d", id, hid, addr, port, mp[0], mp[1], id*100+gi), "ident/host", false)
+			grp = append(grp, id)
+			all = append(all, id)
+		}
+		groups = append(groups, grp)
+	}
+	// ordinary hosts, each with its own address; the last one shares its host id with the first (address change)
+	nplain := 1 + r.Intn(3)
+	firstPlain := id + 1
+	for k := 0; k < nplain; k++ {
+		id++
+		pl := places[r.Intn(3)]
+		hid := id
+		if k == nplain-1 && k > 0 {
+			hid = firstPlain
+		}
+		g.emit(fmt.Sprintf("hostp %d %d %d 9042 %d %d %d", id, hid, 100+id, pl[0], pl[1], id*100+50), "ident/host", false)
+		all = append(all, id)
+	}
+	g.n = id
+	if g.ta && r.Bool() {
+		g.emit("sessks 0", "sessks", false)
+		g.emit(fmt.Sprintf("ksmeta 0 %d", 1+r.Intn(3)), "ksmeta", false)
+	}
+	observe := func() {
+		g.pickWith("-", "-", 1000, true)
+		if g.ta {
+			g.pickWith("0", strconv.Itoa(r.Intn(1500)), 1000, true)
+		}
+	}
+	call := func(ev string, x int) {
+		switch ev {
+		case "hdown":
+			if r.Intn(4) != 0 {
+				g.emit(fmt.Sprintf("state %d 0", x), "state", false)
+			}
+		case "hup", "add":
+			if r.Intn(4) != 0 {
+				g.emit(fmt.Sprintf("state %d 1", x), "state", false)
+			}
+		}
+		g.emit(fmt.Sprintf("%s %d", ev, x), "ident/"+ev, true)
+		observe()
+	}
+	// the cluster is discovered: every object is added (now and then one is left out, one is added twice)
+	for _, x := range all {
+		if r.Intn(8) != 0 {
+			call("add", x)
+		}
+		if r.Intn(8) == 0 {
+			call("add", x)
+		}
+	}
+	steps := 6 + r.Intn(8)
+	for s := 0; s < steps; s++ {
+		grp := groups[r.Intn(len(groups))]
+		x := grp[r.Intn(len(grp))]
+		if r.Intn(5) == 0 {
+			x = all[r.Intn(len(all))]
+		}
+		switch r.Intn(8) {
+		case 0, 1:
+			// a node of the group goes down and comes back
+			call("hdown", x)
+			if r.Intn(3) != 0 {
+				call("hup", x)
+			}
+		case 2:
+			call("remove", x)
+			if r.Bool() {
+				call("add", x)
+			}
+		case 3:
+			call("add", x)
+		case 4:
+			call("hup", x)
+		case 5:
+			// one sibling after the other
+			for _, y := range grp {
+				call([]string{"hdown", "remove"}[r.Intn(2)], y)
+			}
+			for _, y := range grp {
+				if r.Intn(3) != 0 {
+					call([]string{"hup", "add", "add"}[r.Intn(3)], y)
+				}
+			}
+		case 6:
+			g.emit(fmt.Sprintf("state %d %d", x, r.Intn(2)), "state", false)
+			observe()
+		default:
+			call(evNames[r.Intn(4)], x)
+		}
+	}
+	// in the end every node is reported up and added again: every key must be served
+	for _, x := range all {
+		g.emit(fmt.Sprintf("state %d 1", x), "state", false)
+	}
+	for _, x := range all {
+		call("add", x)
+	}
+}
+
 // histories: every sequence of notifier calls of length 1..maxLen on the focus host + `extra` random longer ones,
 // for every policy kind, bare and token-aware
 func (g *gen) histories(maxLen, extra int) {
@@ -2802,6 +3095,14 @@ func main() {
 		default:
 			g.scenario(8, 20+r.Intn(40))
 		}
+	}
+	// (seventh round) HOST IDENTITY family, last so that the op lines of the earlier families stay what they were
+	nid := 90
+	if tier == "thorough" {
+		nid = 2700
+	}
+	for i := 0; i < nid; i++ {
+		g.identityScenario(i)
 	}
 	extra := map[string]interface{}{}
 	if tier == "thorough" {
